@@ -1639,16 +1639,24 @@ class Comparator(BinaryOperator):
                 return
 
         first_operand, second_operand = self.get_first_second_operands(sources)
+        first_quantifier = self._quantifier_of_(first_operand, sources)
         first_operand._eval_parent_ = self
-        first_values = first_operand._evaluate__(sources)
+        first_values = first_operand._evaluate__(
+            sources, yield_when_false=self._yield_when_false_ and first_quantifier is not None)
         for first_value in first_values:
             first_value.update(sources)
+            first_is_false = first_quantifier is not None and first_quantifier._is_false_
             operand_value_map = {first_operand._id_: first_value[first_operand._id_]}
             second_operand._eval_parent_ = self
-            second_values = second_operand._evaluate__(first_value)
+            second_quantifier = self._quantifier_of_(second_operand, first_value)
+            second_values = second_operand._evaluate__(
+                first_value, yield_when_false=self._yield_when_false_ and second_quantifier is not None)
             for second_value in second_values:
+                second_is_false = second_quantifier is not None and second_quantifier._is_false_
                 operand_value_map[second_operand._id_] = second_value[second_operand._id_]
-                res = self.apply_operation(operand_value_map)
+                # an operand that is a sub-query is restricted to the solutions of the sub-query, when false rows are
+                # asked for, the bindings that are not solutions are delivered as false rows of this comparison.
+                res = not (first_is_false or second_is_false) and self.apply_operation(operand_value_map)
                 self._is_false_ = not res
                 if res or self._yield_when_false_:
                     values = copy(first_value)
@@ -1658,6 +1666,18 @@ class Comparator(BinaryOperator):
                     self.update_cache(values)
                     yield values
         self.mark_cache_covered(sources)
+
+    @staticmethod
+    def _quantifier_of_(operand: SymbolicExpression, sources: Dict[int, HashedValue]) -> Optional[An]:
+        """
+        The sub-query that an operand takes its values from (directly or through attribute, index or call mappings)
+        when it is this comparison that evaluates it, that is when it is not bound already.
+        """
+        while isinstance(operand, DomainMapping) and not isinstance(operand, Flatten):
+            if operand._id_ in sources:
+                return None
+            operand = operand._child_
+        return operand if isinstance(operand, An) and operand._id_ not in sources else None
 
     def apply_operation(self, operand_values: Dict[int, HashedValue]):
         return self.operation(operand_values[self.left._id_].value, operand_values[self.right._id_].value)
